@@ -19,8 +19,8 @@ ANCHORS = [("poc.py", "compute_poc"),
 MIN_EVALS = {"quick": 10000, "thorough": 100000}
 MIN_EVENTS = {"raw estimator returned NaN": 50, "curve estimates": 1000}
 TIMEOUT = {"quick": 900, "thorough": 3500}
-N_CURVES = {"quick": 22, "thorough": 400}       # per shard
-N_RANDOM_DEGEN = {"quick": 30, "thorough": 1500}  # per shard and family
+N_CURVES = {"quick": 22, "thorough": 130}       # per shard
+N_RANDOM_DEGEN = {"quick": 30, "thorough": 250}  # per shard and family
 RULE = ("curve cases = (model, E, N, baseline fraction, noise, tilt, offset) "
         "x 6 estimators x {identity, 2^n scale, arbitrary scale, shift}; "
         "degenerate cases = every array over {0,1,2} of length 1..8 plus "
